@@ -124,6 +124,8 @@ func checkC05(c *Ctx) {
 	c.defaultRingHoldsLargestWill()
 	c.oversizedPacketRejected()
 	c.failedResultsNotDereferenced()
+	// removing one connection's subscription leaves the others' entries (subscriber and QoS lists stay parallel)
+	c.sremoveContract()
 }
 
 // deferredRecover: a function deferred in the entry block calls recover().
